@@ -23,8 +23,11 @@ const (
 var TrueProg = []byte{0x51}
 
 // ConfigureLedger installs the ledger family's consensus parameters.
-func ConfigureLedger() {
-	Configure(Config{E: 2, NVal: 1, Me: -1, Interval: 1000})
+func ConfigureLedger() { ConfigureLedgerAs(1, -1) }
+
+// ConfigureLedgerAs: nval federation keys (scenario blocks are signed by validator 0), the node holds key me.
+func ConfigureLedgerAs(nval, me int) {
+	Configure(Config{E: 2, NVal: nval, Me: me, Interval: 1000})
 	p := consensus.ActiveNetParams
 	p.MinValidatorVoteNum = 100000000000000 // vote outputs never change the validator set
 	p.VotePendingBlockNums = []consensus.VotePendingBlockNum{{BeginBlock: 0, EndBlock: math.MaxUint64, Num: VoteLock}}
